@@ -410,6 +410,91 @@ fn reader_rebuild_race_case(rep: &mut Report, rng: &mut Rng) {
     }
 }
 
+/// The caches of a thread are lost while the authority is running and the next thing that happens
+/// is an append (the next seq is in memory): a subscriber attaching afterwards must still get every
+/// frame from 0 on.
+fn cache_loss_then_append_case(rep: &mut Report, rng: &mut Rng) {
+    let scratch = Scratch::new("c06cl");
+    let data_dir = scratch.path().join("data");
+    let ws = scratch.path().join("ws");
+    std::fs::create_dir_all(&ws).unwrap();
+    let app = Arc::new(ripd::verif_export::VerifApp::new(data_dir.clone(), ws.clone()));
+    let store = app.continuities();
+    let thread = store.ensure_default().unwrap();
+    let before = rng.range(1, 6) as usize;
+    for k in 0..before {
+        let _ = store.append_message(&thread, "a".into(), "o".into(), format!("m{k}"));
+    }
+    let whole_dir = rng.chance(1, 2);
+    if whole_dir {
+        let _ = std::fs::remove_dir_all(data_dir.join("continuity_streams"));
+    } else {
+        let _ = std::fs::remove_file(data_dir.join("continuity_streams").join(format!("{thread}.jsonl")));
+    }
+    let during = rng.range(1, 3) as usize;
+    for k in 0..during {
+        let _ = store.append_message(&thread, "a".into(), "o".into(), format!("after the loss {k}"));
+    }
+    let last = (before + during + 1) as u64;
+    let rt = tokio::runtime::Builder::new_multi_thread().worker_threads(2).enable_all().build().unwrap();
+    let delivered: Vec<u64> = rt.block_on(async {
+        use axum::body::Body;
+        use axum::http::Request;
+        use http_body_util::BodyExt;
+        use tower::ServiceExt;
+        let req = Request::builder().method("GET").uri(format!("/threads/{thread}/events")).body(Body::empty()).unwrap();
+        let resp = app.router.clone().oneshot(req).await.unwrap();
+        let (l_store, l_thread) = (store.clone(), thread.clone());
+        tokio::task::spawn_blocking(move || {
+            let _ = l_store.append_message(&l_thread, "a".into(), "o".into(), "while subscribed".into());
+        })
+        .await
+        .unwrap();
+        let mut body = resp.into_body();
+        let mut buf = String::new();
+        let mut out: Vec<u64> = Vec::new();
+        loop {
+            match tokio::time::timeout(std::time::Duration::from_millis(200), body.frame()).await {
+                Ok(Some(Ok(f))) => {
+                    if let Some(d) = f.data_ref() {
+                        buf.push_str(&String::from_utf8_lossy(d));
+                    }
+                }
+                _ => break,
+            }
+            while let Some(pos) = buf.find("\n\n") {
+                let block: String = buf.drain(..pos + 2).collect();
+                for line in block.lines() {
+                    if let Some(rest) = line.strip_prefix("data:") {
+                        if let Ok(v) = serde_json::from_str::<Value>(rest.trim_start()) {
+                            if let Some(seq) = v["seq"].as_u64() {
+                                out.push(seq);
+                            }
+                        }
+                    }
+                }
+            }
+            if out.last() == Some(&last) {
+                break;
+            }
+        }
+        out
+    });
+    drop(rt);
+    rep.evaluations += 1;
+    rep.traces_validated += 1;
+    rep.count("cache_loss_then_append_cases");
+    rep.nontrivial_case(&format!("cl {before} {during} {whole_dir}"));
+    let want: Vec<u64> = (0..=last).collect();
+    if delivered != want {
+        rep.oracle_failure(
+            "C06|late-subscriber-after-cache-loss-and-append",
+            &format!("a subscriber attached after the thread's caches were lost and {during} frame(s) appended received {delivered:?}, expected every frame 0..={last}"),
+            json!({"kind": "Thread", "frames_before_the_loss": before + 1, "lost": if whole_dir { "the cache directory" } else { "the thread's sidecar" }, "frames_appended_after_the_loss": during}),
+        );
+    }
+}
+
 fn lag_case(rep: &mut Report, extra: usize) {
     let cap = std::fs::read_to_string("/verif/.build/gen.json")
         .ok()
@@ -533,6 +618,10 @@ pub fn run(opts: &Opts) -> Report {
     let n_rr = if opts.thorough { 200 } else { 20 } * opts.scale;
     for _ in 0..n_rr {
         reader_rebuild_race_case(&mut rep, &mut rng);
+    }
+    let n_cl = if opts.thorough { 100 } else { 12 } * opts.scale;
+    for _ in 0..n_cl {
+        cache_loss_then_append_case(&mut rep, &mut rng);
     }
     lag_case(&mut rep, 50);
     for (kind, n, acts, rot) in cases {
